@@ -429,6 +429,10 @@ func runC15(c *Ctx) error {
 			return err
 		}
 		for _, x := range h.X {
+			if x == "exp" {
+				// scenarios through two real experimental peers (c15_exp.go)
+				return runC15Exp(c)
+			}
 			if x == "free" {
 				// a replay of a free-running case runs a new race on a history of the same length
 				return runC15Free(c, 3, len(h.Subs)*7/8)
@@ -561,6 +565,11 @@ func runC15(c *Ctx) error {
 		if err := do(st, conc, c.Rng.Intn(5), prefs, caPick, "random"); err != nil {
 			return err
 		}
+	}
+	// the same kind of scenario delivered through two real EXPERIMENTAL peer objects (whatever NewPeer does to obtain
+	// its chain service is part of what runs), see c15_exp.go
+	if err := runC15Exp(c); err != nil {
+		return err
 	}
 	// free-running readers (linearizability against the model), authentication on, see c15_free.go
 	return runC15Free(c, c.Pick(2, 10), c.Pick(140, 400))
